@@ -12,6 +12,9 @@ grep -v "no test files" /tmp/sv_suite_$id.txt | tail -15
 git checkout -q go.work.sum 2>/dev/null
 # demo: copy test files next to the package named in run.sh, or run run.sh
 cat "$out/demo/run.sh"
+if ! grep -q "^cp \|^ *cp " "$out/demo/run.sh"; then
+  for f in "$out"/demo/*_test.go; do [ -e "$f" ] && cp "$f" internal/kessoku/ && echo "copied $(basename $f)"; done
+fi
 run_demo() { (set -o pipefail; cd $wt && GOPROXY=off bash "$out/demo/run.sh" 2>&1 | tail -25); }
 echo "--- demo WITH change"; run_demo; with=$?
 git apply -R "$out/patch.diff"
